@@ -19,6 +19,9 @@
                  parameter defaults, annotations, the return annotation, base classes and the def / class name
                  itself are held by the scope BEING DEFINED; the region of a comprehension covers its first
                  iterable, which Python evaluates in the enclosing scope,
+                 (Scope.in_region is region[0] <= offset < region[1] since commit 61b2b10: the first token of a
+                 generator expression written without parentheses of its own is inside the comprehension like
+                 every other token of it - the traversal below makes no exception for it),
        [t_role]  which branch of get_primary_and_pyname_at the token takes.
    * [rope_pyname_at]  the PyName the chain of ifs returns, identified by the scope whose names dictionary
      owns it (all candidates have the same spelling) plus whether it is an ImportedModule / ImportedName.
@@ -297,7 +300,10 @@ Fixpoint block_methods (odd : list ident) (prop : ident) (cls : bool) (env : pat
 Definition methods (odd : list ident) (prop : ident) (p : program) : list (path * option ident * (bool * bool)) :=
   fst (block_methods odd prop false [] 0%nat p).
 
-(* the set of token ids the harness computed from the text (tokens followed by "=" and preceded by "(" or ",") *)
+(* the set of token ids the harness computed from the text: tokens followed by "=" and preceded by "(" or ","
+   inside parentheses (worder.is_function_keyword_parameter; since commit 9405717 the last name of a tuple
+   target [x, y = ...] is not among them, so in valid Python these are keyword arguments and defaulted
+   parameters only) *)
 Definition kw_of (l : list N) : N -> bool := fun i => existsb (N.eqb i) l.
 
 (* ------------------------------------------------------------------ PyNames *)
@@ -345,7 +351,7 @@ Section Rope.
   Variable rt : rscope.                               (* rope's scope tree *)
   Variable init call : ident.                         (* the identifiers __init__ and __call__ *)
   Variable meths : list (path * option ident * (bool * bool)).        (* functions written directly in a class, with their first parameter *)
-  Variable kwlike : N -> bool.                        (* worder.is_function_keyword_parameter: followed by "=", preceded by "(" or "," *)
+  Variable kwlike : N -> bool.                        (* worder.is_function_keyword_parameter: followed by "=", preceded by "(" or ",", inside "(" *)
 
   Definition entry_at (b : binding) (x : ident) : option nkind :=
     match b with
